@@ -17,6 +17,7 @@ import numpy as np
 
 from vf import lops
 from vf.common import Plan, crandn, held, violated, inconclusive, rng_for, nrm, pick
+from vf import repo_tests
 from vf.oracles.algebra import Spec
 from vf.monitors import STATE
 
@@ -84,6 +85,9 @@ def plan(tier, seed):
                                         "Hstack-rank", "Vstack-i", "Vstack-off",
                                         "Vstack-rank", "Diag-ioff", "Diag-ooff"]),
               mseed=int(rng.integers(1 << 30)))
+    if tier == "thorough" and repo_tests.available():
+        # the repository's own test suite as one more workload under the always-on monitors
+        P.add("repo-tests", timeout=1800.0, fresh=True)
     return P.cases
 
 
@@ -325,6 +329,8 @@ def run_reuse(case):
 
 
 def run_case(case):
+    if case["gen"] == "repo-tests":
+        return repo_tests.run("C03")
     res = run_one(case)
     why = str(res.get("why", ""))
     if res.get("verdict") == "violated" and case.get("dt") == "complex64" and (
